@@ -24,6 +24,7 @@ RLIMIT = re.compile(r'[Rr]esource limit|rlimit')
 
 SHIM_ASSUMPTIONS = {
     'prelude.rs': 'A-std: helper shims (vx_unreachable requires false, vx_assert requires its condition, vx_fmt drops format text)',
+    'stdopt.rs': 'A-std: Option/Result combinators (and_then) as documented',
     'stdint.rs': 'A-std: std integer methods (abs, unsigned_abs) as documented',
     'f64.rs': 'A-float: float methods are total, results unconstrained; float branches are verified for panic-freedom only',
     'bigint.rs': 'A-bigint: num-bigint implements exact integer arithmetic; / truncates toward zero, % has the sign of the dividend, both panic on zero divisor; to_i64 is Some iff in range',
@@ -228,6 +229,15 @@ def run_unit(unit, cfg, tier='quick', seed=0):
            'slots': [], 'assumptions': [], 'solver_s': 0.0, 'unstable': []}
     out, log, xcmd, xdt = extract(unit, cfg)
     res['cmds'].append(xcmd)
+    pre_nohint = []
+    for _try in range(4):
+        # adapted mode: a slot whose body changed shape lost a hint anchor -> drop that slot's ghost hints
+        m = re.search(r"slot '([^']+)' \(.*lost anchor: hint", log.get('reason', '') or '') if log.get('status') != 'ok' else None
+        if not m or m.group(1) in pre_nohint:
+            break
+        pre_nohint.append(m.group(1))
+        out, log, xcmd, xdt = extract(unit, cfg, None, pre_nohint)
+        res['cmds'].append('VX_NOHINT=%s %s' % (';'.join(pre_nohint), xcmd))
     if log.get('status') != 'ok':
         res['status'] = 'undecided'
         res['reasons'].append('extraction: ' + log.get('reason', '?'))
@@ -264,13 +274,15 @@ def run_unit(unit, cfg, tier='quick', seed=0):
     # moved code into a new function). Extract them with their real signature and no contract and
     # try again; obligations that fail in adapted mode are reported only when replay confirms them.
     auto = []
+    if pre_nohint:
+        auto = ['(hints of %s dropped)' % ','.join(pre_nohint)]
     for _round in range(3):
         missing = missing_helpers(undecided, log)
         missing = [m for m in missing if m not in auto]
         if not missing:
             break
         auto += missing
-        out, log2, xcmd2, _ = extract(unit, cfg, auto)
+        out, log2, xcmd2, _ = extract(unit, cfg, [a for a in auto if not a.startswith('(')], pre_nohint)
         res['cmds'].append('VX_AUTO=%s %s' % (';'.join(auto), xcmd2))
         if log2.get('status') != 'ok':
             res['adapt_error'] = log2.get('reason')
@@ -294,7 +306,7 @@ def run_unit(unit, cfg, tier='quick', seed=0):
                 if k == 'slot-body' and o['name'] not in nohint and o.get('n_hints', 0) > 0:
                     nohint.append(o['name'])
         if nohint:
-            out, log2, xcmd2, _ = extract(unit, cfg, auto, nohint)
+            out, log2, xcmd2, _ = extract(unit, cfg, [a for a in auto if not a.startswith('(')], nohint + pre_nohint)
             res['cmds'].append('VX_AUTO=%s VX_NOHINT=%s %s' % (';'.join(auto), ';'.join(nohint), xcmd2))
             if log2.get('status') == 'ok':
                 log = log2
